@@ -1280,8 +1280,30 @@ def docs_separator_rule(syn, crate, prop, rule="C15.R4"):
                 verbatim.append(e["line"])
     # the blank-line normalisation must be part of the routine whose result is interpolated into the wrappers (C15.R3)
     esc = [e for e in S.events(fn, "let") if 'replace("*/",' in S.squash(e["init"]) and S.squash(e["init"]).startswith("|")]
-    sanit = [e for e in esc if re.search(r'replace\("\\n\\n",', S.squash(e["init"]))]
-    r.inst(producer="utils::parse_docs", verbatim_block_doc_at=verbatim, blank_line_sanitiser=bool(sanit))
+    def eliminates_blank_lines(init):
+        """the `\\n\\n` -> R rewrite leaves no blank line behind: either it is repeated until none is left, or R has no
+        border with the pattern (a single left-to-right pass over `\\n\\n\\n` with R = `\\n *\\n` yields `\\n *\\n\\n`)"""
+        t = S.squash(init)
+        m = re.search(r'while(\w+)\.contains\("\\n\\n"\)\{\1=\1\.replace\("\\n\\n",("(?:[^"\\]|\\.)*")\);?\}', t)
+        if m:
+            rep = S.unquote(m.group(2))
+            return rep is not None and "\n\n" not in rep
+        ok = False
+        for m in re.finditer(r'replace\("\\n\\n",("(?:[^"\\]|\\.)*")\)', t):
+            rep = S.unquote(m.group(1))
+            if rep is None:
+                return False
+            ok = "\n\n" not in rep + rep and not rep.endswith("\n") and not rep.startswith("\n")
+        return ok
+
+    touched = [e for e in esc if re.search(r'replace\("\\n\\n",', S.squash(e["init"]))]
+    sanit = [e for e in touched if eliminates_blank_lines(e["init"])]
+    r.inst(producer="utils::parse_docs", verbatim_block_doc_at=verbatim, blank_line_sanitiser=bool(sanit), rewrites_blank_lines=bool(touched))
+    if splits and touched and not sanit:
+        r.fail(prop, "merge-separator-incomplete parse_docs -> merge",
+               "the blank-line rewrite runs once, and its replacement ends or begins with a newline: three consecutive newlines still leave an empty line inside the comment, which merge() takes for the end of the declaration",
+               fn["file"], touched[0]["line"])
+        return r
     if not verbatim and not sanit:
         r.fail(prop, "anchor-missing block doc wrapper", "cannot find the block-doc branch of parse_docs", fn["file"], fn["line"])
     if splits and verbatim and not sanit:
@@ -1799,4 +1821,72 @@ def paren_strip_rule(syn, prop, rule):
                        fn["file"], e["line"])
     r.stats["strip_sites"] = n
     r.floor = 0
+    return r
+
+
+def deps_emission_rule(syn, crate, prop, rule):
+    """what was recorded is what is visited: the generated `visit_dependencies` gets one call per recorded entry"""
+    from vlib import mirlib as M
+    r = Result(rule, "every entry recorded in `Dependencies` is emitted into the generated visit_dependencies(): the set's iterator reaches the `#(#lines;)*` repetition without an adapter that can drop entries, and each kind of entry has its visitor call (Transitive -> visit_dependencies(v), Generics -> visit_generics(v), Type -> v.visit::<T>())")
+    b = crate.body("<deps::Dependencies as quote::ToTokens>::to_tokens")
+    fn = syn.fn("<Dependency as ToTokens>::to_tokens", "deps.rs")
+    if b is None or fn is None:
+        r.fail(prop, "anchor-missing Dependencies::to_tokens", "not found")
+        return r
+    DROPPERS = r"Iterator::(filter|filter_map|skip|skip_while|take|take_while|step_by|flat_map|map_while|find|nth|last|min|max|reduce|fuse|zip|scan)$|slice::<impl \[T\]>::(get|split_at|first|last)$|dedup|retain|truncate|drain"
+    iters = [t for blk, t in b.calls() if not b.is_cleanup(blk) and M.fn_matches(t, r"collections::HashSet::<.*>::iter$", r"IntoIterator>::into_iter$", r"::iter$")]
+    drops = [(t, M.user_span(t["span"])) for blk, t in b.calls() if not b.is_cleanup(blk) and M.fn_matches(t, DROPPERS)]
+    branches = sum(1 for blk in range(b.n) if not b.is_cleanup(blk) and b.term(blk)["k"] == "switch")
+    r.inst(fn=b.path, iterates_recorded_set=len(iters), dropping_adapters=[t["fn"]["path"] for t, _ in drops])
+    if not iters:
+        r.fail(prop, "anchor-missing dependency iteration", "to_tokens does not iterate the recorded set", b.file(), b.line())
+    for t, (f, l) in drops:
+        r.fail(prop, "dependency-entries-dropped Dependencies::to_tokens",
+               "%s between the recorded set and the emitted calls: a recorded dependency can be left out of visit_dependencies(), so export_all() does not reach it" % t["fn"]["path"].split("::")[-1], f, l)
+    # calls into local predicates on entries (a hand-written filter) show up as calls to crate functions on Dependency
+    for blk, t in b.calls():
+        if b.is_cleanup(blk) or not t.get("fn"):
+            continue
+        p = t["fn"]["path"]
+        if p.startswith("deps::") and not p.endswith("to_tokens"):
+            f, l = M.user_span(t["span"])
+            r.fail(prop, "dependency-entries-dropped Dependencies::to_tokens", "to_tokens consults %s before emitting an entry" % p, f, l)
+    want = {"Dependency::Transitive": "< # ty as # crate_rename :: TS > :: visit_dependencies ( v )",
+            "Dependency::Generics": "< # ty as # crate_rename :: TS > :: visit_generics ( v )",
+            "Dependency::Type": "v . visit :: < # ty > ( )"}
+    for key, tpl in want.items():
+        got = None
+        for e in templates(fn):
+            if any(c["k"] == "match" and S.squash(c["pat"]).startswith(key) for c in e["ctx"]):
+                got = " ".join(t for t in S.flat(e["tokens"]) if isinstance(t, str))
+        ok = got is not None and S.squash(got) == S.squash(tpl)
+        r.inst(fn=fn["qual"], entry=key, emits=got, ok=ok)
+        if not ok:
+            r.fail(prop, "dependency-kind-not-visited %s" % key, "a recorded %s entry must be emitted as `%s`, found %r" % (key, tpl, got), fn["file"], fn["line"])
+    r.floor = 4
+    return r
+
+
+def docs_unconditional_rule(crate, prop, rule="C15.R5"):
+    """doc comments are read for every item, variant and field: no flag, attribute or cargo feature decides whether"""
+    from vlib import mirlib as M
+    r = Result(rule, "in every `from_attrs` of an attribute kind that carries docs (struct, enum, field) each non-error path from entry to return passes the call to parse_docs: neither `skip`, nor the `serde-compat` feature test, nor any other condition decides whether documentation is read")
+    for x in ("StructAttr", "EnumAttr", "FieldAttr"):
+        cands = [b for b in crate.bodies if b.path.endswith("%s::from_attrs" % x)]
+        if not cands:
+            r.fail(prop, "anchor-missing %s::from_attrs" % x, "not found")
+            continue
+        b = cands[0]
+        docs = {blk for blk, t in b.calls() if not b.is_cleanup(blk) and M.fn_matches(t, r"utils::parse_docs$")}
+        errs = {blk for blk, t in b.calls() if not b.is_cleanup(blk) and M.fn_matches(t, r"FromResidual")}
+        rets = [blk for blk in range(b.n) if not b.is_cleanup(blk) and b.term(blk)["k"] == "return"]
+        ok = bool(docs) and b.all_paths_pass(0, docs | errs, rets)
+        r.inst(fn=b.path, parse_docs_calls=len(docs), on_every_success_path=ok)
+        if not docs:
+            r.fail(prop, "docs-not-read %s::from_attrs" % x, "from_attrs never calls parse_docs", b.file(), b.line())
+        elif not ok:
+            r.fail(prop, "docs-read-conditionally %s::from_attrs" % x,
+                   "a path through from_attrs returns Ok without having called parse_docs: under that condition (a flag such as `skip`, or a cargo feature test) the documentation of the item is dropped",
+                   b.file(), b.line())
+    r.floor = 3
     return r
